@@ -80,7 +80,7 @@ def judge_traces(scratch, jobs, results):
     (same universe module and constants as the generator that produced the history).  A trace that TLC cannot
     consume to its end turns the result into a failure of kind 'trace-rejected'.  Returns (judged, rejected, tlc states)."""
     import concurrent.futures, re
-    todo = [i for i, (j, r) in enumerate(zip(jobs, results)) if j.get('mode') == 'trace' and r and r.get('lines')]
+    todo = [i for i, (j, r) in enumerate(zip(jobs, results)) if j.get('mode') in ('trace', 'trace-q') and r and r.get('lines')]
     cfgs = {}
 
     def one(i):
@@ -275,10 +275,11 @@ def follower_check(pid, tier, scratch, replay, plan):
             uni = dict(r['universe'])
             uni.update(g.get('universe_extra', {}))
             for h in take:
-                if g.get('mode') == 'trace':
+                if g.get('mode') in ('trace', 'trace-q'):
                     tr = dict(cfg=g['cfg'], module=g['module'], overrides={k: v for k, v in ov.items() if k not in ('GenDepth', 'GenRandom')},
                               pend=g.get('trace_pend', ov.get('Lifecycle') != 'TRUE'))
-                jobs.append(dict(u=uni, h=json.loads(h), mode=g.get('mode', ''), trace=tr if g.get('mode') == 'trace' else None, opt=dict(g.get('opt', {}), seed=vlib.seed() * 7 + len(jobs)), src=g['cfg'] + (' (free)' if g.get('mode') == 'free' else ''),
+                # the inputs of a model transaction are a set: every other replay lists them in reverse order
+                jobs.append(dict(u=dict(uni, revins=(len(jobs) % 2 == 1)), h=json.loads(h), mode=g.get('mode', ''), trace=tr if g.get('mode') in ('trace', 'trace-q') else None, opt=dict(g.get('opt', {}), seed=vlib.seed() * 7 + len(jobs)), src=g['cfg'] + (' (free)' if g.get('mode') == 'free' else ''),
                                  ignore=PENDING_KINDS if ov.get('Lifecycle') == 'TRUE' else []))
             if not sim:
                 states += r.get('distinct', 0)
@@ -414,6 +415,13 @@ PLAN_C01 = dict(
           gen('Gen_In.cfg', 'MC_In.tla',
               quick=[SIM(50, 14), SIM(25, 16, **MS)],
               thorough=[EXH(6, 3000), SIM(1200, 16), SIM(600, 18, **MS)]),
+          # steered: a block holding a transaction with several inputs (owners mixed in theme "incoming") is disconnected
+          gen('Gen_In.cfg', 'MC_In.tla',
+              quick=[dict(SIM(300, 14, GenWant='"rb-multi"'), sample=25)],
+              thorough=[dict(SIM(6000, 16, GenWant='"rb-multi"'), sample=400)]),
+          gen('Gen_Pay.cfg', 'MC_Pay.tla',
+              quick=[dict(SIM(200, 14, GenWant='"rb-multi"'), sample=15)],
+              thorough=[dict(SIM(5000, 16, GenWant='"rb-multi"'), sample=300)]),
           # follower running freely: block steps overlap further chain changes, also in the middle of a step
           gen('Gen_Pay.cfg', 'MC_Pay.tla', mode='free',
               quick=[SIM(15, 16, **MS)],
